@@ -168,6 +168,89 @@ def _lift_case(repo, it, S, spec):
     return n, out
 
 
+def _container_case(repo, it, S, spec):
+    """incorporation through the containers (gene, feature collection, annotation collection): every member of the new container
+    has its reference spliced sequence with the edits applied, and the container's own reference sequence is the edited stretch"""
+    vs, chunk, container = spec
+    out, n = [], 0
+    if chunk:
+        parent = chunk_parent(it, REF, chunk[0], chunk[1], alphabet="NT_STRICT_UNKNOWN")
+    else:
+        parent = chrom_parent(it, REF, alphabet="NT_STRICT_UNKNOWN")
+    members = [([(12, 16)], "PLUS"), ([(4, 9), (12, 20)], "MINUS"), ([(8, 16), (22, 30)], "PLUS")]
+    desc = f"{container} with variants {vs} on {'chromosome' if not chunk else 'chunk ' + str(chunk)}"
+    wants = []
+    for blocks, sn in members:
+        parts = [edited_block(REF, s_, e, vs) for s_, e in blocks]
+        if any(p is None for p in parts):
+            return 0, []
+        wp = "".join(parts)
+        wants.append(wp if sn == "PLUS" else rc(wp))
+    if any(not w for w in wants):
+        return 0, []
+    try:
+        objs = [mk_variant(it, s_, e, alt, parent) for s_, e, alt in vs]
+        var = objs[0] if len(objs) == 1 else it.apply(ClassTok("VariantIntervalCollection"), [objs], {"parent_or_seq_chunk_parent": parent}, None, 0)
+        txs = [mk_transcript(it, b, S[sn], parent_or_seq_chunk_parent=parent, transcript_id=f"t{i}", sequence_name="chr1") for i, (b, sn) in enumerate(members)]
+        fts = [mk_feature(it, b, S[sn], parent_or_seq_chunk_parent=parent, feature_name=f"f{i}", sequence_name="chr1") for i, (b, sn) in enumerate(members)]
+        from ..genekernel import mk_collection, mk_feature_collection, mk_gene
+        gene = mk_gene(it, txs, gene_id="g", sequence_name="chr1", parent_or_seq_chunk_parent=parent)
+        fc = mk_feature_collection(it, fts, feature_collection_id="fc", sequence_name="chr1", parent_or_seq_chunk_parent=parent)
+        if container == "gene":
+            obj, q, leaves = gene, "gene.gene:GeneInterval.incorporate_variants", lambda o: list(o.fields["transcripts"])
+        elif container == "feature collection":
+            obj, q, leaves = fc, "gene.feature:FeatureIntervalCollection.incorporate_variants", lambda o: list(o.fields["feature_intervals"])
+        else:
+            obj = mk_collection(it, [gene], [fc], sequence_name="chr1", parent_or_seq_chunk_parent=parent)
+            q = "gene.collections:AnnotationCollection.incorporate_variants"
+            leaves = lambda o: list(o.fields["genes"][0].fields["transcripts"]) + list(o.fields["feature_collections"][0].fields["feature_intervals"])  # noqa: E731
+            wants = wants + wants
+    except Raised as ex:
+        return 1, [("construct", f"{desc}: {ex.exc_name}", f"{V}.__init__")]
+    n += 1
+    k, new = run(it, repo.fn(q), [var], {}, obj)
+    ncat = f"{len(vs)} variant{'s' if len(vs) > 1 else ''}" + (", several change length" if sum(1 for s_, e, a in vs if len(a) != e - s_) > 1 else "")
+    if k != "ok":
+        return n, [(f"container incorporation raises ({ncat})", f"{desc}: incorporate_variants raises {new}", q)]
+    fs = repo.fn("gene.interval:AbstractFeatureInterval.get_spliced_sequence")
+    for i, (lf, want) in enumerate(zip(leaves(new), wants)):
+        n += 1
+        k2, sv = run(it, fs, [], {}, lf)
+        got = sv.fields["sequence"] if k2 == "ok" else sv
+        if got != want:
+            out.append((f"member sequence after container incorporation ({ncat})", f"{desc}: member #{i} ({lf.cls_name}) has spliced sequence {k2}:{got!r}; its "
+                        f"reference spliced sequence with the edits applied is {want!r}", q))
+            break
+    # the container's own stretch of the alternative sequence
+    if container != "annotation collection":
+        n += 1
+        lo, hi = min(b[0][0] for b, _ in members), max(b[-1][1] for b, _ in members)
+        wref = edited_block(REF, lo, hi, vs)
+        kr, rv = run(it, repo.fn("gene.interval:AbstractFeatureIntervalCollection.get_reference_sequence"), [], {}, new)
+        gotr = rv.fields["sequence"] if kr == "ok" and isinstance(rv, Obj) else rv
+        if wref is not None and gotr != wref:
+            out.append((f"container reference sequence after incorporation ({ncat})", f"{desc}: get_reference_sequence() of the new container -> {kr}:{gotr!r}; "
+                        f"the edited stretch [{lo},{hi}) is {wref!r}", q))
+    return n, out
+
+
+def rk_containers(ctx):
+    specs = []
+    vsets = [(v,) for v in VARIANTS] + [(a, b) for a, b in itertools.combinations(VARIANTS, 2) if a[1] <= b[0] or b[1] <= a[0]]
+    for ch in (None, (2, 37)):
+        for vs in vsets:
+            if len(vs) == 2 and sum(1 for s_, e, a in vs if len(a) != e - s_) > 1:
+                continue  # several length-changing variants: the sequential lift-over finding (C13.RL) applies to every container alike
+            for container in ("gene", "feature collection", "annotation collection"):
+                specs.append((vs, ch, container))
+    ctx.r.floor("C13.RN", "container incorporation cases", len(specs), 100)
+    from ..par import pmap
+    results = pmap(_runner(ctx.repo, _container_case), specs)
+    _report(ctx, "C13.RN", results, [("gene.gene:GeneInterval.incorporate_variants", "members and reference sequence on the alternative haplotype"),
+                                     ("gene.feature:FeatureIntervalCollection.incorporate_variants", "members and reference sequence on the alternative haplotype"),
+                                     ("gene.collections:AnnotationCollection.incorporate_variants", "every member on the alternative haplotype")])
+
+
 def rk_sequences(ctx):
     specs = []
     chunks = [None, (3, 34), (0, 38)]
@@ -524,6 +607,7 @@ def _refines(skey, gkey):
 RULES = [
     ("C13.RK", rk_sequences),
     ("C13.RL", rk_lift),
+    ("C13.RN", rk_containers),
     ("C13.RC", rk_coding),
     ("C13.RM", rm_haplotype_mapping),
     ("C13.R3", r3_round_trip),
